@@ -83,6 +83,7 @@ def _run(pool: typing.Any, api: scen.Api, url: str, family: str, allowed: tuple[
         rd = api.read(o.value)
         api.close_response(o.value)
     P.note(request=o.kind(), body=None if rd is None else rd.kind())
+    P.reached()
     _judge(o, rd, family, allowed)
     api.close(pool)
 
